@@ -18,7 +18,7 @@ from ..proj import proj, diff
 from .. import corpus, matcher, layout, ptrace
 from . import c01, c02, c09
 
-MODES = ["space", "lines", "tight", "random", "markers"]
+MODES = ["space", "lines", "tight", "random", "markers", "sameline"]
 
 
 def _variants(args):
